@@ -308,4 +308,7 @@ class TrioEventLoop(EventLoop):
             # closed and calling wait_readable with a closed fd does not work.
             while not scope.cancel_called:
                 await self._wait_readable(fd)
+                if scope.cancel_called:
+                    # removed by another callback after this task was scheduled to run
+                    break
                 callback()
